@@ -554,6 +554,14 @@ func run(c *lib.Ctx) {
 		}
 	}
 	fail := func(v drive.Violation, path []drive.Event) {
+		if v.Class == "" && strings.Contains(v.Msg, "reopen after clean close failed") {
+			// the stale chunk kept by the empty-flatten defect can also make the
+			// reopened metadata inconsistent (a resurrected schema entry without
+			// its info entry), so that the cleanly closed database is refused
+			if se, ie := emptyAtPersistPoint(path); se || ie {
+				v.Class = classEmptyFlatten
+			}
+		}
 		if v.Class != "" && assume[v.Class] {
 			c.Count("assumed_known_"+v.Class, 1)
 			return
